@@ -279,20 +279,30 @@ def ocaml_build(group):
 # ----------------------------------------------------------------------------
 
 def cargo_build(bins, profile="dev", features=("verif-hooks",)):
-    """Rebuild the harness (path dependency on /repo) from the current tree."""
-    lock_src = os.path.join(REPO, "Cargo.lock")
+    """Rebuild the harness (path dependency on /repo) from the current tree.
+    With VERIF_REPO=<dir> (a scratch copy/worktree of the repository, used for mutation
+    experiments) a private copy of the harness crate is built against that directory."""
+    hdir = HARNESS
+    if os.path.realpath(REPO) != "/repo":
+        tag = hashlib.sha1(os.path.realpath(REPO).encode()).hexdigest()[:10]
+        hdir = os.path.join(BUILD, "harness-" + tag)
+        os.makedirs(os.path.join(hdir, "src"), exist_ok=True)
+        sh(["rsync", "-a", "--delete", os.path.join(HARNESS, "src") + "/", os.path.join(hdir, "src") + "/"])
+        toml = open(os.path.join(HARNESS, "Cargo.toml")).read().replace('path = "/repo"', 'path = "%s"' % os.path.realpath(REPO))
+        open(os.path.join(hdir, "Cargo.toml"), "w").write(toml)
+        shutil.copy(os.path.join(HARNESS, "Cargo.lock"), os.path.join(hdir, "Cargo.lock"))
     args = ["cargo", "build", "--offline"]
     if profile == "release":
         args.append("--release")
     for b in bins:
         args += ["--bin", b]
     e = env_offline()
-    e["CARGO_TARGET_DIR"] = os.path.join(HARNESS, "target")
-    rc, out = sh(args, cwd=HARNESS, timeout=1800, env=e)
+    e["CARGO_TARGET_DIR"] = os.path.join(hdir, "target")
+    rc, out = sh(args, cwd=hdir, timeout=1800, env=e)
     if rc != 0:
         return None, out
     sub = "release" if profile == "release" else "debug"
-    return {b: os.path.join(HARNESS, "target", sub, b) for b in bins}, out
+    return {b: os.path.join(hdir, "target", sub, b) for b in bins}, out
 
 
 # ----------------------------------------------------------------------------
